@@ -51,7 +51,7 @@ def sweep(spec):
         variant = h.variants[job['vi']]
         vname = '' if variant is None else '[%s]' % json.dumps(variant, default=str).replace('"', '')
         per = out['per'].setdefault(h.name, {'runs': 0, 'checks': 0, 'aborted': 0})
-        nfail = 0
+        nfail = {}          # per check name: a known finding at seed 0 must not end the sweep for the other checks
         for seed in range(h.seeds or spec['seeds']):
             failures, nruns, nchecks, status = concrete.run_concrete(h.fn, variant, {}, seed=seed, max_runs=3000)
             out['runs'] += nruns
@@ -63,7 +63,9 @@ def sweep(spec):
                 per['aborted'] += 1
             if status.startswith('unsupported'):
                 out['unsupported'] += 1
-            for f in failures[:1]:
+            for f in failures:
+                if nfail.get(f['check'], 0) >= 2:
+                    continue
                 model = {}
                 for k, v in f['drawn'].items():
                     if not isinstance(v, dict):
@@ -72,9 +74,7 @@ def sweep(spec):
                     model[n] = v
                 out['failures'].append({'h': h.key, 'vi': job['vi'], 'hname': h.name + vname, 'check': f['check'], 'seed': seed,
                                         'exception': f.get('exception', ''), 'model_for_replay': model})
-                nfail += 1
-            if nfail >= 2:
-                break
+                nfail[f['check']] = nfail.get(f['check'], 0) + 1
     print('SWEEP-RESULT ' + json.dumps(out, default=str))
     return 0
 
